@@ -1,4 +1,4 @@
-import AasVerif.Lemmas.Yielding.LastStmt
+import AasVerif.Lemmas.Yielding.Budget
 import AasVerif.Model.YieldingSkeleton
 import AasVerif.Gen.Yielding
 /-!
@@ -14,6 +14,9 @@ All statements are for flows that can be constructed (`wfSeq`: the `@require(len
 `IfTrue`/`IfFalse`) and for **every** sequence of condition outcomes.  The machines are
 deterministic step functions run with a step budget; "`∃ k, ∀ m ≥ k, run m … = r`" says that the
 machine terminates with result `r` (no budget appears in `r`; `Flow.run` needs no budget at all).
+`runSub`/`runFlat` (what the driver executes) use the concrete budget `defaultFuel`; the theorems
+`runSub_correct`, `pipeline_correct_ends_with_command`, `runFlat_linearize_correct` show that it
+suffices, so no budget appears in those statements either.
 -/
 namespace AasVerif.Props.C26
 open AasVerif AasVerif.Yielding
@@ -100,6 +103,20 @@ theorem pipeline_correct (flow : List Node) (hwf : wfSeq flow = true) (orc : Lis
     rw [toSubroutines_cons]
     exact sub_of_flat st.subs (st.flat.symm ▸ final_conv (nd :: rest) hwf orc)
 
+/-- **Main theorem, budget-free form**: `runSub` (the state machine with its concrete step budget,
+as the driver runs it) gives the structured result; in particular it never runs out of budget
+(every cycle of the emitted code passes an `If`). -/
+theorem runSub_correct (flow : List Node) (hwf : wfSeq flow = true) (orc : List Bool) :
+    runSub (toSubroutines flow) orc =
+      (Flow.run flow orc).withEnd (endStatus (toSubroutines flow).flatten) :=
+  runSub_final flow hwf orc
+
+/-- the goto machine with its concrete budget over the linearization / over the final statements -/
+theorem runFlat_linearize_correct (flow : List Node) (hwf : wfSeq flow = true) (orc : List Bool) :
+    runFlat (linearize flow) orc = Flow.run flow orc ∧
+      runFlat (fixLabels (compress (linearize flow))) orc = Flow.run flow orc :=
+  ⟨runFlat_linearize flow hwf orc, runFlat_final flow hwf orc⟩
+
 /-- The statement of C26: same sequence of commands, condition evaluations and yields, for every
 sequence of condition outcomes. -/
 theorem pipeline_events (flow : List Node) (hwf : wfSeq flow = true) (orc : List Bool) :
@@ -129,6 +146,29 @@ theorem pipeline_correct_partial (flow : List Node) (hwf : wfSeq flow = true)
   split
   · rename_i h; cases hr : Flow.run flow orc; simp_all
   · rfl
+
+/-- `pipeline_correct` for the largest class with an exact equality, budget-free:
+`∀ flow orc, ends with a Command → runSub (linearize_to_subroutines flow) orc = Flow.run flow orc`. -/
+theorem pipeline_correct_ends_with_command (flow : List Node) (hwf : wfSeq flow = true)
+    (hend : flowEndsCmd flow = true) (orc : List Bool) :
+    runSub (toSubroutines flow) orc = Flow.run flow orc := by
+  have hne : flow ≠ [] := by intro h; subst h; simp [flowEndsCmd] at hend
+  have hflat : (toSubroutines flow).flatten = finalStmts flow := by
+    cases flow with
+    | nil => exact absurd rfl hne
+    | cons nd rest => rw [toSubroutines_cons]; exact (stages _ hwf).flat
+  rw [runSub_correct flow hwf orc, hflat, endStatus_final flow hwf hne, hend]
+  unfold Result.withEnd
+  split
+  · rename_i h; cases hr : Flow.run flow orc; simp_all
+  · rfl
+
+/-- equal events, budget-free -/
+theorem runSub_events (flow : List Node) (hwf : wfSeq flow = true) (orc : List Bool) :
+    (runSub (toSubroutines flow) orc).events = (Flow.run flow orc).events := by
+  rw [runSub_correct flow hwf orc]
+  unfold Result.withEnd
+  split <;> rfl
 
 /-- … and otherwise (last node is a yield, an if or a loop) the emitted C++ falls through into
 `default:` when the structured flow ends: `std::logic_error` instead of a clean return. -/
